@@ -29,6 +29,7 @@ T_EXP = -40            # kernel comparison: relative tolerance 2^-40 for entries
 INV_T_EXP = -36        # numerically inverted matrices: |d - q| <= 2^-36 (|q| + 1)
 OR_TOL = F(1, 2 ** 38)  # oracle: defect relative to the sum of absolute contributions
 FFT_TOL = 2.0 ** -36
+MAX_PER_OP = 2        # replays written per failing (kind, operator); further failing configurations are counted
 
 QUICK_N = [1, 2, 3, 4, 5, 6, 7, 8, 9, 12, 16, 17, 32, 33, 63, 64]
 
@@ -174,6 +175,7 @@ class Ctx:
         self.rejected = []
         self.thorough = ck.tier == 'thorough'
         self.shape_reported = set()
+        self.fail_count = {}
 
     def add(self, N, label, expr):
         self.cases.setdefault(N, []).append((label, expr))
@@ -182,9 +184,14 @@ class Ctx:
         self.worst[name] = max(self.worst.get(name, 0.0), float(val))
 
     def oracle(self, ok, label, what, replay, kind):
+        """an implementation-side oracle failure: a violation with the failing input; at most MAX_PER_OP replays per
+        (kind, operator) are written (the first ones: smallest N), the rest are counted in the evidence"""
         if not ok:
             self.oracle_bad.add(label)
-            self.ck.violation(what, replay, match={'kind': kind, 'op': label[0]})
+            key = (kind, str(label[0]))
+            self.fail_count[key] = self.fail_count.get(key, 0) + 1
+            if self.fail_count[key] <= MAX_PER_OP:
+                self.ck.violation(what, replay, match={'kind': kind, 'op': label[0]})
 
 
 def rand_coeffs(rng, N):
@@ -646,6 +653,19 @@ def nd_cases(cx, rng, thorough):
             ops.append(('S', ax, 1, lambda ax=ax: s.get_integration_matrix(axes=(ax,)),
                         lambda ax=ax: one[ax].get_integration_matrix()))
         ops.append(('Id', 0, 0, lambda: s.get_Id(), lambda: one[0].get_Id()))
+        if ndim == 2:
+            # derivative along both axes = kron(D_0, D_1)
+            with warnings.catch_warnings():
+                warnings.simplefilter('ignore')
+                A = dens(s.get_differentiation_matrix(axes=(0, 1)))
+                K = np.kron(dens(one[0].get_differentiation_matrix()), dens(one[1].get_differentiation_matrix()))
+            lab = ('nd-Dxy', tuple(names), tuple(Ns), 0, 1)
+            ck.case(key=lab)
+            ck.traces += 1
+            scale = float(np.max(np.abs(K))) or 1.0
+            if A.shape != K.shape or float(np.max(np.abs(A - K))) > 2.0 ** -40 * scale:
+                cx.oracle(False, lab, 'mixed derivative along axes (0, 1) is not kron(D_0, D_1) (bases %s, N %s)' % (names, Ns),
+                          {'operator': 'Dxy', 'bases': names, 'N': Ns, 'intervals': ivs}, 'kron')
         for name, ax, p, fN, f1 in ops:
             with warnings.catch_warnings():
                 warnings.simplefilter('ignore')
@@ -780,6 +800,10 @@ def run(ck):
                     nbad += 1
                     if lab in cx.oracle_bad:
                         continue     # already reported with a failing input by the oracle
+                    key = ('correspondence', str(lab[0]))
+                    cx.fail_count[key] = cx.fail_count.get(key, 0) + 1
+                    if cx.fail_count[key] > MAX_PER_OP:
+                        continue
                     ck.violation('model/implementation correspondence differs for %s at entry %s; the exact-calculus oracle did not fail on this operator'
                                  % (lab, tuple(r)), {'operator': lab[0], 'case': lab, 'first_bad_entry': list(r), 'file': path},
                                  match={'kind': 'correspondence', 'op': lab[0]}, no_input=True)
@@ -793,3 +817,4 @@ def run(ck):
         rej.setdefault('%s:%s' % (label, err), set()).add(N)
     ck.cov['rejected_by_code'] = {k: sorted(v) for k, v in sorted(rej.items())}
     ck.cov['resolutions'] = Ns
+    ck.cov['failing_configurations_per_operator'] = {'%s:%s' % k: v for k, v in sorted(cx.fail_count.items())}
